@@ -135,11 +135,15 @@ func (t *websocketTransport) Receive(ctx context.Context) (envelope, error) {
 }
 
 func (t *websocketTransport) Close() error {
-	if err := t.ensureOpen(); err != nil {
-		return err
+	conn := t.conn
+	if conn == nil {
+		return errors.New("transport is not open")
 	}
 
-	err := t.conn.Close()
+	// See lingerConn: the peer must not lose what was sent right before the closing
+	lingerConn(conn.UnderlyingConn())
+
+	err := conn.Close()
 	t.conn = nil
 	return err
 }
